@@ -41,6 +41,17 @@ type Env struct {
 	backing map[Term]Term // inside recursive spec bodies: slice parameter -> its backing-array parameter
 	recFuel Term          // inside recursive spec bodies: fuel passed to recursive calls
 	backingDeref map[Term]string
+	pol     int // polarity of the position being translated when proving a goal: +1, -1, 0 = not a goal / mixed
+}
+
+func (env *Env) withPol(p int) *Env {
+	if env.pol == p {
+		return env
+	}
+	c := env.child()
+	c.parent = env
+	c.pol = p
+	return c
 }
 
 func (env *Env) derefOf(b Term) string {
@@ -66,7 +77,7 @@ func (env *Env) lookupBacking(t Term) (Term, bool) {
 }
 
 func (env *Env) child() *Env {
-	return &Env{e: env.e, vars: map[string]TV{}, parent: env, st: env.st, old: env.old, pkg: env.pkg, alloc0: env.alloc0, depth: env.depth, touched: env.touched, lazy: env.lazy, inOld: env.inOld}
+	return &Env{e: env.e, vars: map[string]TV{}, parent: env, st: env.st, old: env.old, pkg: env.pkg, alloc0: env.alloc0, depth: env.depth, touched: env.touched, lazy: env.lazy, inOld: env.inOld, pol: env.pol}
 }
 
 func (env *Env) lookup(name string) (TV, bool) {
@@ -196,7 +207,7 @@ func (env *Env) tr(x Expr) TV {
 		v := env.tr(x.X)
 		switch x.Op {
 		case "!":
-			return TV{not(v.T), tyBool}
+			return TV{not(env.withPol(-env.pol).tr(x.X).T), tyBool}
 		case "-":
 			if isFloat(v.Ty) {
 				return TV{e.fop("fp.neg", v.T), v.Ty}
@@ -212,12 +223,35 @@ func (env *Env) tr(x Expr) TV {
 	case *EBin:
 		return env.trBin(x)
 	case *ECond:
-		c := env.trBool(x.C)
+		c := env.withPol(0).trBool(x.C)
 		a := env.tr(x.A)
 		b := env.tr(x.B)
 		a, b = env.unifyNil(a, b)
 		return TV{app("ite", c, a.T, b.T), a.Ty}
 	case *EQuant:
+		if !x.Forall && len(x.Witness) == len(x.Vars) && env.pol > 0 {
+			// proving an existential in a goal: exhibit the witness
+			inner := env.child()
+			ok := func() (ok bool) {
+				defer func() {
+					if r := recover(); r != nil {
+						if _, isSpec := r.(specError); isSpec {
+							ok = false
+							return
+						}
+						panic(r)
+					}
+				}()
+				for i, v := range x.Vars {
+					inner.vars[v.Name] = env.tr(x.Witness[i])
+				}
+				return true
+			}()
+			if ok {
+				return inner.tr(x.Body)
+			}
+			// witness not available at this program point: plain existential
+		}
 		inner := env.child()
 		var binders []string
 		for _, v := range x.Vars {
@@ -444,9 +478,12 @@ func (env *Env) trBin(x *EBin) TV {
 	case "||":
 		return TV{or(env.trBool(x.L), env.trBool(x.R)), tyBool}
 	case "==>":
-		return TV{app("=>", env.trBool(x.L), env.trBool(x.R)), tyBool}
+		return TV{app("=>", env.withPol(-env.pol).trBool(x.L), env.trBool(x.R)), tyBool}
 	case "<==>":
-		return TV{app("=", env.trBool(x.L), env.trBool(x.R)), tyBool}
+		return TV{app("=", env.withPol(0).trBool(x.L), env.withPol(0).trBool(x.R)), tyBool}
+	}
+	if env.pol != 0 {
+		env = env.withPol(0)
 	}
 	a := env.tr(x.L)
 	b := env.tr(x.R)
